@@ -289,6 +289,15 @@ func (s *hopSession) Data(r io.Reader) error {
 	if s.tx != nil {
 		s.tx.DataSeen = true
 	}
+	if s.get("data") == "S2" {
+		// the message is taken, but the reply is a positive one other than "250" (e.g. "252 message queued")
+		s.msg.Data = b
+		s.h.mu.Lock()
+		s.h.Msgs = append(s.h.Msgs, *s.msg)
+		s.h.mu.Unlock()
+		s.txDone()
+		return &smtp.SMTPError{Code: 252, EnhancedCode: smtp.EnhancedCode{2, 0, 0}, Message: "message queued"}
+	}
 	if err := s.act(s.get("data"), "DATA"); err != nil {
 		if s.tx != nil {
 			s.tx.DataErr = s.get("data")
